@@ -130,7 +130,7 @@ PROPS_EXTRA = {
     'C06': ['Props.EffectFacts', 'Props.CodecFacts', 'Props.GenHeads', 'Props.GenJoin', 'Props.GenJoinTail'],
     'C07': ['Props.CodecFacts'],
     'C08': ['Props.CodecFacts', 'Props.GenMisc'],
-    'C09': ['Props.GenFetcher', 'Props.GenHeads', 'Props.GenLoaders', 'Props.GenNewLog', 'Props.GenCapstoneRebuild'],
+    'C09': ['Props.GenFetcher', 'Props.GenHeads', 'Props.GenLoaders', 'Props.GenNewLog', 'Props.GenCapstoneRebuild', 'Props.GenCapstoneSystem'],
     'C10': ['Props.GenFetcher', 'Props.GenLoaders', 'Props.GenCapstoneLoad'],
     'C11': ['Props.GenFetcher'],
     'C12': ['Props.CodecFacts', 'Props.GenFetcher'],
